@@ -74,7 +74,29 @@ func (l Layout) wtList() wt.ArchiveInfoList {
 }
 
 func (l Layout) create(path string, opts ...wt.Option) (*wt.Whisper, error) {
-	return wt.Create(path, l.wtList(), wt.AggregationMethod(l.Method), float32(l.Xff), opts...)
+	return wt.Create(path, l.wtList(), wtMethod(l.Method), float32(l.Xff), opts...)
+}
+
+// wtMethod maps the format's method number (1 average, 2 sum, 3 last, 4 max,
+// 5 min, 6 first - the numbering of the classic Whisper format) to
+// whispertool's constant of that NAME, so that a file is always created "as
+// max", never "as whatever whispertool calls number 4".
+func wtMethod(m int) wt.AggregationMethod {
+	switch m {
+	case 1:
+		return wt.Average
+	case 2:
+		return wt.Sum
+	case 3:
+		return wt.Last
+	case 4:
+		return wt.Max
+	case 5:
+		return wt.Min
+	case 6:
+		return wt.First
+	}
+	return wt.AggregationMethod(m)
 }
 
 func methodName(m int) string {
